@@ -469,7 +469,9 @@ def gen_unwrap(rng, cid):
         if len(p) > 65000:
             p = p[:65000]
         if bound and compat in (DRAFT9, RFC5766) and rng.random() < 0.6:
-            sc.R(SERVER, (struct.pack(">HH", 0x4000, len(p)) + p).hex())
+            # RFC 5766 11.5: over UDP a ChannelData message MAY carry padding, which the length field does not count
+            pad = rng.choice([b"", b"", bytes((-len(p)) % 4), bytes(rng.randrange(256) for _ in range(rng.randrange(1, 8)))])
+            sc.R(SERVER, (struct.pack(">HH", 0x4000, len(p)) + p + pad).hex())
         elif bound and compat not in (DRAFT9, RFC5766) and rng.random() < 0.6:
             if p[:1] and p[0] >= 64:      # raw data on the locked channel (not STUN-like)
                 sc.R(SERVER, p.hex())
@@ -798,8 +800,8 @@ def oracle(line, out, kind):
                 exp = None
                 if rfc and len(pkt) >= 4 and 0x40 <= pkt[0] <= 0x7f:
                     ch, l = struct.unpack(">HH", pkt[:4])
-                    if ch in relay.chans and l == len(pkt) - 4:
-                        exp = (relay.chans[ch], pkt[4:])
+                    if ch in relay.chans and l <= len(pkt) - 4:
+                        exp = (relay.chans[ch], pkt[4:4 + l])      # what follows the announced length is padding
                 else:
                     m = parse_stun(pkt, compat != OC2007)
                     if m and rfc and m[0] == 0x0017 and m[1][:4] == COOKIE:
